@@ -30,7 +30,10 @@ EXPLANATION = (
     'R3 lookup is augment > yielding parent > own value; R4 every stored option value is the result of validate_value of the '
     'option it is stored for (.value only in UserOption, augments only in set_option, one justified and re-verified writer '
     'outside options.py); R5 the decision tables of the validate_value family equal the reference conditions on every world '
-    'of their atoms; R6 DEFAULT_DEPENDENTS equals the documented buildtype table, the expansion runs exactly when the value '
+    'of their atoms, and an accepting path of the language-standard validator returns a candidate only after `candidate in self.choices` (a replacement only '
+    'after its lookup in deprecated_stds succeeded) whatever else the path tests; a disagreeing row whose only foreign atoms read non-constraint fields of the option object is a violation, not undecided; '
+    'R1 reads prefix_split_options in loop form (comprehensions, a filtered intermediate list, one loop per result = loop fission) as the union of what the loops do per entry class; '
+    'R6 DEFAULT_DEPENDENTS equals the documented buildtype table, the expansion runs exactly when the value '
     'changed to a non-custom buildtype and the command line puts buildtype first; R7 the prefix-dependent directory defaults '
     '(hard reset, reset on prefix change, initial default) follow the reference tables; R9 a value taken out of pending_options is applied through set_option unless it is the None sentinel of the pop; R8 also: storing into an option object always switches its yielding off; R8 an option is linked to a parent (and so may report the parent\'s value) only under an exact '
     'class identity test, because the option classes subclass one another, and .yielding is only ever False or "parent linked". '
@@ -40,7 +43,9 @@ EXPLANATION = (
     'project default_options or a machine file overwrites the explicit values (only the command line is reordered); a yielding option reports a '
     'same-class parent value outside its own choices/range (documented: get_option returns the superproject value); sanitize_prefix strips one trailing '
     'slash only (string semantics); a prefix change outside the first invocation does not reset the dependants (deliberate guard, pinned); '
-    'a guard moved from a caller into a non-private callee (e.g. hard_reset_from_prefix(None) returning early) is undecided.')
+    'a guard moved from a caller into a non-private callee (e.g. hard_reset_from_prefix(None) returning early) is undecided. '
+    'Does NOT decide whether the "something changed" flag returned by set_from_configure_command accumulates over all -D arguments (it only gates persistence in mconf: '
+    'the stored values are right, saving them is C08\'s clause), nor the apply loops of the top-level initialiser when one source is iterated by several consecutive loops (undecided).')
 ASSUMPTIONS = [
     'asserts are no-ops (python -O semantics); T.cast is the identity',
     'the same canonical expression evaluated twice on one path between which the analysed function stores nothing has the same value',
@@ -155,52 +160,94 @@ TOP_ORDER = [1, 3, 2]      # Builtin-options.md / property statement: defaults <
 
 
 def _prefix_split_summary(ctx: RuleCtx, mod: T.Any) -> None:
-    """prefix_split_options(coll) -> (value of the key named 'prefix' or None, every other entry)."""
+    """prefix_split_options(coll) -> (value of the key named 'prefix' or None, every other entry).
+
+    Read in loop form (comprehensions and filtered intermediate lists are loops over their source).  The function may
+    partition the source in one loop or in several (loop fission): what happens to an entry of a given class is what
+    the loops together do to it; a loop that raises for the class rejects it (the results are locals, nothing else is
+    observable)."""
     qn = 'OptionStore.prefix_split_options'
-    fn = mod.func(qn)
+    fn0 = mod.func(qn)
+    fn = S.loop_form(fn0)
     sym = S.Sym(fn)
     items, _ = S.straight_line(sym, fn, qn, mod, 'OptionStore')
     loops = [x for k, x in items if k == 'loop']
     rets = [x for k, x in items if k == 'return']
     news = [x.node[0] for k, x in items if k == 'fx' and x.kind == 'new']
-    if len(loops) != 1 or len(rets) != 1 or len(news) != 1:
-        raise Undecided(f'{qn}: expected one loop, one accumulator and one return')
-    loop = loops[0]
-    srcs = S.chain_sources(loop.iter)
-    if [norm(s) for s in srcs] != ['ARG1']:
-        raise Undecided(f'{qn}: loop iterates {short(loop.iter)}')
-    rest = news[0]
-    rows = loop_rows(sym, loop)
-    tab = S.to_table(rows, qn + ':loop')
+    if any(k == 'block' for k, _x in items):
+        raise Undecided(f'{qn}: compound statement outside the loops')
+    if not loops or len(rets) != 1:
+        raise Undecided(f'{qn}: expected loops over the collection and one return')
+    ret = rets[0]
+    if not (isinstance(ret, ast.Tuple) and len(ret.elts) == 2 and all(isinstance(x, ast.Name) for x in ret.elts)):
+        raise Undecided(f'{qn}: result of unknown form: {short(ret)}')
+    first, second = ret.elts[0].id.split('@')[0], ret.elts[1].id.split('@')[0]  # type: ignore[attr-defined]
+    rests = [n for n in news if n in (first, second)]
+    if len(rests) != 1 or first == second:
+        raise Undecided(f'{qn}: expected exactly one returned accumulator mapping, found {rests}')
+    rest = rests[0]
+    pname = first if second == rest else second
     isp = A("KEY.name == 'prefix'")
     isstr = Atom('isinstance', ('VAL', ('str',)))
-    pvar: T.Set[str] = set()
+    vocab = {isp, isstr}
 
     def got(r: tables.Row) -> T.Any:
         sr: S.SRow = r.srow  # type: ignore[attr-defined]
-        lets = [f.node[0] for f in sr.fx if f.kind == 'let' and norm(f.node[1]) == 'VAL']
         t = tokens(qn, r, lambda f: 'rest' if f.kind == 'store' and f.text == f'{rest}[KEY] := VAL' else None)
         if t and t[0] in ('raise', 'leaves'):
             return t
-        if lets:
-            pvar.update(lets)
-            return ('take',) + t
-        return t
+        takes = [f for f in sr.fx if f.kind == 'let' and f.node[0] == pname]
+        if any(norm(f.node[1]) != 'VAL' for f in takes):
+            raise Undecided(f'{qn}: the returned local {pname} is bound to {[norm(f.node[1]) for f in takes]} in a loop')
+        return (('take',) if takes else ()) + t
 
-    def ref(v: T.Dict[str, bool]) -> T.Any:
-        if v['prefix']:
-            return ('take',) if v['str'] else ('raise', 'MesonException')
+    contrib: T.Dict[T.Tuple[bool, bool], T.List[T.Tuple[T.Any, tables.Row]]] = {}
+    nrows = 0
+    for loop in loops:
+        srcs = S.chain_sources(loop.iter)
+        if [norm(s) for s in srcs] != ['ARG1']:
+            raise Undecided(f'{qn}: loop iterates {short(loop.iter)}')
+        if not (isinstance(loop.iter, ast.Call) and is_call(loop.iter, 'items')):
+            raise Undecided(f'{qn}: loop iterates {short(loop.iter)}, not the items of the collection')
+        tab = S.to_table(loop_rows(sym, loop), f'{qn}:loop{loop.index}')
+        unknown = [a for a in tab.atoms() if a not in vocab and not S.is_free(a)]
+        if unknown:
+            raise Undecided(f'{qn}: atoms outside the vocabulary: {unknown}')
+        nrows += len(tab.rows)
+        per: T.Dict[T.Tuple[bool, bool], T.Tuple[T.Any, tables.Row]] = {}
+        for w in tab.worlds([isp, isstr]):
+            key = (w[isp], w.get(isstr, True))
+            rows = tab.fire(w)
+            if not rows:
+                raise Undecided(f'{qn}: no row fires in world { {repr(a): x for a, x in w.items()} }')
+            gs = [got(r) for r in rows]
+            if any(x != gs[0] for x in gs[1:]) or (key in per and per[key][0] != gs[0]):
+                raise Undecided(f'{qn}: rows with different outcomes fire in world { {repr(a): x for a, x in w.items()} }')
+            per[key] = (gs[0], rows[0])
+        for key, v in per.items():
+            contrib.setdefault(key, []).append(v)
+        ctx.note(f'{qn}: table {tab.dump()}')
+
+    def ref(prefix: bool, is_str: bool) -> T.Any:
+        if prefix:
+            return ('take',) if is_str else ('raise', 'MesonException')
         return ('rest',)
-    S.compare(ctx, mod, qn, fn, tab, {isp: 'prefix'}, lambda w: {'prefix': w[isp], 'str': w.get(isstr, True)}, ref, got, [isp, isstr],
-              what='reference (prefix entry split off, wrong type rejected, everything else kept)')
-    ret = rets[0]
-    if not (isinstance(ret, ast.Tuple) and len(ret.elts) == 2 and all(isinstance(x, ast.Name) for x in ret.elts) and len(pvar) == 1):
-        raise Undecided(f'{qn}: result of unknown form: {short(ret)}')
-    first, second = ret.elts[0].id.split('@')[0], ret.elts[1].id.split('@')[0]  # type: ignore[attr-defined]
-    if {first, second} != pvar | {rest}:
-        raise Undecided(f'{qn}: result of unknown form: {short(ret)}')
-    ctx.require(first in pvar and second == rest, f'{qn}: returns (prefix value, remaining entries)', mod, qn, ret,
-                f'returns ({first}, {second}): the remaining entries come first and the prefix value second; callers unpack (prefix, rest)', fn)
+    bad = 0
+    for (prefix, is_str), parts in sorted(contrib.items()):
+        raising = [g for g, _r in parts if g and g[0] == 'raise']
+        if any(g and g[0] == 'leaves' for g, _r in parts):
+            raise Undecided(f'{qn}: a loop is left early for an entry with prefix={prefix}, str={is_str}')
+        total = raising[0] if raising else tuple(sorted(x for g, _r in parts for x in g))
+        want = ref(prefix, is_str)
+        if total != want:
+            bad += 1
+            row = next((r for g, r in parts if g), parts[0][1])
+            ctx.violation(mod, qn, repr(row), f'an entry with key.name == \'prefix\' {prefix} and a str value {is_str} yields {total!r} (row `{short(repr(row), 200)}`); the reference '
+                          f'(prefix entry split off, wrong type rejected, everything else kept) requires {want!r}', _row_node(row, fn0))
+    if not bad:
+        ctx.ok(f'{qn}: {nrows} rows in {len(loops)} loop(s) agree with the reference (prefix entry split off, wrong type rejected, everything else kept) on {len(contrib)} entry classes')
+    ctx.require(first == pname and second == rest, f'{qn}: returns (prefix value, remaining entries)', mod, qn, ret,
+                f'returns ({first}, {second}): the remaining entries come first and the prefix value second; callers unpack (prefix, rest)', fn0)
 
 
 def _prefix_candidate(e: ast.AST) -> T.Optional[int]:
@@ -336,6 +383,8 @@ def r1(ctx: RuleCtx) -> None:
     seq: T.List[int] = []
     for loop in loops:
         srcs = [_resolve_top_source(s, summ) for s in S.chain_sources(loop.iter)]
+        if seq and set(srcs) & set(seq):
+            raise Undecided(f'{qn}: source {[TOP_SRC.get(s_, s_) for s_ in srcs if s_ in seq]} is iterated by more than one apply loop (loop fission of an apply loop is not read)')
         rows = loop_rows(sym, loop)
         tab = S.to_table(rows, f'{qn}:loop{loop.index}')
         park = all(s == 1 for s in srcs)
@@ -1062,7 +1111,7 @@ def r6(ctx: RuleCtx) -> None:
             keys = [norm(p[1]) if p[0] == 'item' else None for p in parts]
             if keys[0] == BT:
                 rest_ok = [p for p in parts[1:]] == [p for p in parts[1:] if p[0] == 'spread' and norm(p[1]) == D] and len(parts) == 2
-                if not rest_ok or norm(parts[0][2]) not in (f'{D}.pop({BT})', f'{D}[{BT}]', f'{D}.get({BT})'):
+                if not rest_ok or norm(S.strip_sentinel(parts[0][2])) not in (f'{D}.pop({BT})', f'{D}[{BT}]', f'{D}.get({BT})'):
                     raise Undecided(f'{qn}: mapping built in an unknown way: {stores[0].text}')
                 ctx.ok(f'{qn}: buildtype is moved to the front of cmd_line_options')
             else:
